@@ -47,8 +47,24 @@ def run(tier, seed):
     gs = tlc.run("TextModel", GEN % ("blocks", 7, "TRUE"), workers=4, simulate=(60 if tier == "quick" else 600), depth=9, seed=seed, timeout=600)
     chk.cov["states"] = ge.distinct + gb.distinct; chk.cov["transitions"] = max(ge.generated + gb.generated, 1)
     esc = ge.printed; blocks = uniq(gb.printed + gs.printed, key=lambda b: b["src"])
+    gd = tlc.run("TextModel", GEN % ("edge", 0, "FALSE"), workers=4, timeout=600, coverage=False)
+    edge = sorted(gd.printed, key=lambda c: (c["slot"], c["ch"], c["atEnd"]))
+    if len(edge) < 100: raise FrameworkError("TextModel(edge): %d documents" % len(edge))
     exe = build.build_harness("asan")
     segs = []; per = 16; meta = []
+    EDGE = {"~A": "\u00e0", "~D": "\u2020", "~S": "\u0160", "~E": "\u00e9", "~N": "\u00f1"}
+    def edge_enc(t):
+        for k_, v_ in EDGE.items(): t = t.replace(k_, v_)
+        return t.encode("utf-8")
+    for i in range(0, len(edge), per):
+        s = ["seg\tedge", "wantout\t1"]
+        for j, c in enumerate(edge[i:i + per]):
+            s.append(line("src", "g%d" % j, sx(edge_enc(c["src"])))); s.append(line("src", "h%d" % j, sx(c["base"])))
+            for f in FM:
+                x = NOSMART | (E["COMPLETE"] if c["slot"] in METASLOTS + ("glossary", "abbrev") else 0)
+                fam = "s_data" if f == "fodt" else "s_conv"
+                s.append(line("conv", fam, "g%d" % j, docs.FMT[f], x, 0)); s.append(line("conv", fam, "h%d" % j, docs.FMT[f], x, 0))
+        segs.append(s); meta.append(("edge", i))
     for i in range(0, len(esc), per):
         s = ["seg\tesc", "wantout\t1"]
         for j, c in enumerate(esc[i:i + per]):
@@ -92,6 +108,17 @@ def run(tier, seed):
             if ev.get("e") == "conv": outs[(ev["src"], ev["fmt"])] = (project.lat1(ev["out"]) if ev.get("out") is not None else None)
         for (sid, fm), out in sorted(outs.items()):
             fmt = docs.FMTNAME[fm]; nconv += 1
+            if kind == "edge":
+                if not sid.startswith("g"): continue
+                c = edge[base + int(sid[1:])]; bout = outs.get(("h" + sid[1:], fm))
+                chb = EDGE[c["ch"]].encode("utf-8")
+                tok = (b"w" + chb) if c["atEnd"] else (chb + b"w"); btok = b"w7" if c["atEnd"] else b"7w"
+                try: (out or b"").decode("utf-8"); valid = True
+                except UnicodeDecodeError: valid = False
+                trace.append(dict(e="reset"))
+                trace.append(dict(e="edge", null=out is None, fmt=fmt, slot=c["slot"], ch=c["ch"], atEnd=c["atEnd"], valid=valid, count=(out or b"").count(tok), basecount=(bout or b"").count(btok),
+                                  visible=(bout or b"").count(btok) >= 1, src=c["src"]))
+                continue
             if kind == "openers":
                 o = OPEN[base + int(sid[1:])]
                 body = b" ".join(re.findall(rb"QZQ(.*?)QZQ", out or b"", re.S))
@@ -137,6 +164,11 @@ def run(tier, seed):
             desc = "the unmatched delimiter %r in %r is written to %s with %s left bare" % (ev["opener"], ev["src"], ev["fmt"], ev["leftover"])
             if key in seen: seen[key] += 1; continue
             seen[key] = 1; chk.report(key, desc, dict(opener=ev["opener"], fmt=ev["fmt"])); continue
+        if ev["e"] == "edge":
+            key = "edge-character:%s:%s:%s:%s" % (ev["fmt"], ev["slot"], ev["ch"], "end" if ev["atEnd"] else "start")
+            desc = "the %s character %s of the text in slot %s is not carried whole to %s: found %d time(s), the digit twin %d time(s), valid UTF-8: %s :: %r" % ("last" if ev["atEnd"] else "first", ev["ch"], ev["slot"], ev["fmt"], ev["count"], ev["basecount"], ev["valid"], ev["src"])
+            if key in seen: seen[key] += 1; continue
+            seen[key] = 1; chk.report(key, desc, dict(src=ev["src"], event=ev)); continue
         if ev["e"] == "esc":
             what = "lost-or-repeated" if ev["count"] != ev["basecount"] or ev["count"] == 0 else "unescaped"
             key = "%s:%s:%s:%s" % (what, ev["fmt"], ev["slot"], ev["chname"])
